@@ -227,6 +227,13 @@ func Main(args []string) int {
 	case "bench":
 		Bench()
 		return 0
+	case "c06once":
+		// one call in a fresh process: prints the outcome of Validate(profile p, data d) of the history pass
+		var p, d int
+		fmt.Sscan(args[1], &p)
+		fmt.Sscan(args[2], &d)
+		fmt.Print(C06Once(p, d))
+		return 0
 	case "racepass":
 		rounds := 4
 		if len(args) > 1 {
